@@ -1230,3 +1230,113 @@ pub fn merge_shared_subfragment_cases() -> Vec<GDoc> {
     }
     out
 }
+
+/// C10: sequences of 2..4 SIBLING nodes (field with a nested selection, inline fragment, fragment
+/// spread, leaf field), each carrying 0..2 directives from a pool of location-restricted ones, inside
+/// a field / an inline fragment / a fragment definition that follows the operation: what the rule
+/// remembers about the current location must be right AFTER leaving a nested node.
+pub fn directive_sibling_cases(rng: &mut Rng, n: usize) -> Vec<GDoc> {
+    let pool = ["onF", "onIF", "onFS", "onFD", "onQ", "any", "zzUnknown"];
+    let dirs = |rng: &mut Rng| -> Vec<GDir> { (0..rng.below(3)).map(|_| GDir { name: rng.pick(&pool).to_string(), args: vec![] }).collect() };
+    let leaf = |d: Vec<GDir>| GSel::Field { alias: None, name: "id".into(), args: vec![], dirs: d, sels: vec![] };
+    let mut out = vec![];
+    for _ in 0..n {
+        let mut sibs = vec![];
+        for _ in 0..rng.range(2, 4) {
+            let d = dirs(rng);
+            sibs.push(match rng.below(4) {
+                0 => GSel::Field { alias: None, name: "self".into(), args: vec![], dirs: d, sels: vec![GSel::Inline { tc: Some("A".into()), dirs: dirs(rng), sels: vec![leaf(dirs(rng))] }] },
+                1 => GSel::Inline { tc: if rng.pct(50) { Some("Named".into()) } else { None }, dirs: d, sels: vec![leaf(dirs(rng)), GSel::Spread { name: "Fd".into(), dirs: dirs(rng) }] },
+                2 => GSel::Spread { name: "Fd".into(), dirs: d },
+                _ => leaf(d),
+            });
+        }
+        let opd = dirs(rng);
+        let frd = dirs(rng);
+        let mut defs = vec![
+            GDef::Op { kind: *rng.pick(&[OpKind::Query, OpKind::SelSet, OpKind::Query]), name: None, vars: vec![], dirs: vec![], sels: vec![GSel::Field { alias: None, name: "a".into(), args: vec![], dirs: dirs(rng), sels: sibs }] },
+            GDef::Frag { name: "Fd".into(), tc: "A".into(), dirs: frd, sels: vec![leaf(dirs(rng)), GSel::Inline { tc: None, dirs: dirs(rng), sels: vec![leaf(vec![])] }] },
+        ];
+        if let GDef::Op { kind, dirs: d0, name, .. } = &mut defs[0] {
+            if *kind != OpKind::SelSet {
+                *d0 = opd;
+                *name = Some("Q".into());
+            }
+        }
+        if rng.pct(30) {
+            defs.reverse();
+        }
+        out.push(GDoc(defs));
+    }
+    out
+}
+
+/// C11: subscriptions with up to four root selections drawn from fields, aliased fields (aliases
+/// colliding with each other and with field names), __typename under an alias, the same field twice,
+/// inline fragments on the root type; and operation mixes whose names differ only in case.
+pub fn subscription_key_cases(rng: &mut Rng, n: usize) -> Vec<GDoc> {
+    let f = |alias: Option<&str>, name: &str| GSel::Field { alias: alias.map(|a| a.to_string()), name: name.into(), args: vec![], dirs: vec![], sels: vec![] };
+    let atoms: Vec<GSel> = vec![f(None, "s1"), f(None, "s2"), f(Some("s1"), "s2"), f(Some("k"), "s1"), f(Some("k"), "s2"), f(Some("t"), "__typename"), f(None, "__typename"), f(Some("s2"), "s2")];
+    let mut out = vec![];
+    for i in 0..n {
+        if i % 5 == 4 {
+            // names differing in case / equal across kinds
+            let names = ["A", "a", "A"];
+            let kinds = [OpKind::Query, OpKind::Mutation, OpKind::Subscription];
+            let m = rng.range(2, 3);
+            let defs: Vec<GDef> = (0..m).map(|_| {
+                let k = *rng.pick(&kinds);
+                let body = match k { OpKind::Mutation => f(None, "m"), OpKind::Subscription => f(None, "s1"), _ => f(None, "__typename") };
+                GDef::Op { kind: k, name: Some(rng.pick(&names).to_string()), vars: vec![], dirs: vec![], sels: vec![body] }
+            }).collect();
+            out.push(GDoc(defs));
+            continue;
+        }
+        let mut sels = vec![];
+        for _ in 0..rng.range(1, 4) {
+            let a = atoms[rng.below(atoms.len())].clone();
+            sels.push(match rng.below(4) { 0 => GSel::Inline { tc: Some("Subscription".into()), dirs: vec![], sels: vec![a] }, 1 => GSel::Inline { tc: None, dirs: vec![], sels: vec![a] }, _ => a });
+        }
+        out.push(GDoc(vec![GDef::Op { kind: OpKind::Subscription, name: Some("S".into()), vars: vec![], dirs: vec![], sels }]));
+    }
+    out
+}
+
+/// C07: one variable whose ONLY usage sits in an unusual place: a directive argument on the operation
+/// itself, on a field, on an inline fragment or on a fragment spread; inside its own or another
+/// variable's default value; in an argument of an unknown field / unknown directive; inside a
+/// fragment reached only through an inline fragment of another fragment; never.
+pub fn variable_site_cases() -> Vec<GDoc> {
+    let v = || GValue::Var("v".into());
+    let leaf = || GSel::Field { alias: None, name: "f_Boolean_0".into(), args: vec![], dirs: vec![], sels: vec![] };
+    let args_dir = |val: GValue| GDir { name: "args".into(), args: vec![("boolean0".to_string(), val)] };
+    let mut out = vec![];
+    for vt in [GType::Named("Boolean".into()), GType::NonNull(Box::new(GType::Named("Boolean".into()))), GType::Named("Int".into())] {
+        for site in 0..10 {
+            let mut vars = vec![GVar { name: "v".into(), ty: vt.clone(), default: None }];
+            let mut opdirs = vec![];
+            let mut sels = vec![leaf()];
+            let mut defs_extra = vec![];
+            match site {
+                0 => opdirs.push(args_dir(v())),
+                1 => sels = vec![GSel::Field { alias: None, name: "f_Boolean_0".into(), args: vec![], dirs: vec![args_dir(v())], sels: vec![] }],
+                2 => sels = vec![GSel::Inline { tc: None, dirs: vec![args_dir(v())], sels: vec![leaf()] }],
+                3 => { sels = vec![GSel::Spread { name: "Fz".into(), dirs: vec![args_dir(v())] }]; defs_extra.push(GDef::Frag { name: "Fz".into(), tc: "Query".into(), dirs: vec![], sels: vec![leaf()] }); }
+                4 => vars[0].default = Some(v()),
+                5 => vars.push(GVar { name: "w".into(), ty: GType::Named("Boolean".into()), default: Some(v()) }),
+                6 => sels = vec![GSel::Field { alias: None, name: "zzNope".into(), args: vec![("a".to_string(), v())], dirs: vec![], sels: vec![] }],
+                7 => sels = vec![GSel::Field { alias: None, name: "f_Boolean_0".into(), args: vec![], dirs: vec![GDir { name: "zzUnknown".into(), args: vec![("x".to_string(), v())] }], sels: vec![] }],
+                8 => {
+                    sels = vec![GSel::Spread { name: "Fa".into(), dirs: vec![] }];
+                    defs_extra.push(GDef::Frag { name: "Fa".into(), tc: "Query".into(), dirs: vec![], sels: vec![GSel::Inline { tc: Some("Query".into()), dirs: vec![], sels: vec![GSel::Spread { name: "Fb".into(), dirs: vec![] }] }] });
+                    defs_extra.push(GDef::Frag { name: "Fb".into(), tc: "Query".into(), dirs: vec![], sels: vec![GSel::Field { alias: None, name: "f_Boolean_0".into(), args: vec![("a".to_string(), GValue::List(vec![GValue::Obj(vec![("k".to_string(), GValue::List(vec![v()]))])]))], dirs: vec![], sels: vec![] }] });
+                }
+                _ => {}
+            }
+            let mut defs = vec![GDef::Op { kind: OpKind::Query, name: Some("Q".into()), vars, dirs: opdirs, sels }];
+            defs.extend(defs_extra);
+            out.push(GDoc(defs));
+        }
+    }
+    out
+}
